@@ -75,6 +75,13 @@ Proof. exact eval_once_closure. Qed.
 (* the hypotheses are satisfiable: opaque calls and pure user expressions are stable *)
 Theorem C03_stable_callp : forall err_text self en id rs, stable err_text self en (ECallP id rs) rs [Ev id []].
 Proof. exact stable_callp. Qed.
+(* a call WITH arguments (parenthesised or command style, after spreading `xs...`): the callee sees exactly
+   the argument values, in order, evaluated once each; nested error-wrapped calls as arguments are covered by
+   C03_errwrap_bang / _default, whose results are stable values again *)
+Theorem C03_stable_call_with_args : forall err_text self en id args rs vs targs,
+  stable_args err_text self en args vs targs ->
+  stable err_text self en (ECallA id args rs) rs (targs ++ [Ev id vs]).
+Proof. exact stable_calla. Qed.
 Theorem C03_stable_pure : forall err_text self en e v t, pure_eval en e v t -> user_only e = true ->
   stable err_text self en e [v] t.
 Proof. exact stable_pure. Qed.
@@ -106,6 +113,12 @@ Example C03_example_default :
   = (RVal [VInt 42], [], [Ev 1%N []]).
 Proof. vm_compute. reflexivity. Qed.
 
+Example C03_example_variadic_spread :
+  ev (fun _ => []) (fun _ en tr => (RFuel, en, tr))
+     (lower_closure KBang (ECallA 200 [EConst (VInt 1); EConst (VInt 2); EConst (VInt 3)] [VErr None]) []) [] []
+  = (RVal [], [], [Ev 200%N [VInt 1; VInt 2; VInt 3]]).
+Proof. vm_compute. reflexivity. Qed.
+
 Print Assumptions C03_errwrap_bang.
 Print Assumptions C03_errwrap_default.
 Print Assumptions C03_errwrap_q_ok.
@@ -113,5 +126,6 @@ Print Assumptions C03_errwrap_q_err.
 Print Assumptions C03_errwrap_q_err_function.
 Print Assumptions C03_errwrap_eval_once.
 Print Assumptions C03_stable_callp.
+Print Assumptions C03_stable_call_with_args.
 Print Assumptions C03_stable_pure.
 Print Assumptions C03_quest_multi_value_refuted.
